@@ -1,6 +1,6 @@
 import PPModel.Base.Sexp
 import PPModel.Mod.CompressedRe
-namespace PP.Driver
+namespace PP.Driver.WordPathsD
 open PP PP.Sexp PP.ReLite PP.Ranges PP.WordPaths PP.OneOf PP.CompressedRe
 
 private def outS (o : Option Nat) : Sexp :=
@@ -90,4 +90,8 @@ def wordPathsHandle : List Sexp → Option Sexp
       pure (.list ((locs cs).map (fun loc => outS (literal m.toList cs loc))))
   | _ => none
 
+end PP.Driver.WordPathsD
+
+namespace PP.Driver
+def wordPathsHandle := WordPathsD.wordPathsHandle
 end PP.Driver
